@@ -183,6 +183,7 @@ func c15ListOps() []c15Op {
 		{Level: 0, Type: document.ListTypeBullet, BulletSymbol: document.BulletTypeDot}, {Level: 1, Type: document.ListTypeLowerRoman, StartNumber: 0}}})
 	add(c15Op{name: "CreateMultiLevelList(number/5/L0, number/1/L0)", kind: "multi", items: []document.ListItem{
 		{Level: 0, Type: document.ListTypeNumber, StartNumber: 5}, {Level: 0, Type: document.ListTypeNumber, StartNumber: 1}}})
+	add(c15Op{name: "CreateMultiLevelList(no items)", kind: "multi"})
 	add(c15Op{name: "RestartNumbering(first item's numId)", kind: "restart", arg: "first"})
 	add(c15Op{name: "RestartNumbering(99)", kind: "restart", arg: "99"})
 	add(c15Op{name: "AddParagraph", kind: "para"})
